@@ -194,8 +194,8 @@ def run_output_case(rp, case):
             return '%s: after output staging %s:///%s %s' % (name, twhere, trel, 'does not exist' if got is None else 'has other content')
         if not want_staged and got is not None:
             return '%s: the task failed and staging on error was not requested, but %s:///%s was staged' % (name, twhere, trel)
-        if outcome == 'DONE' and task.get('state') != 'DONE':
-            return '%s: staging succeeded but the task ends %s' % (name, task.get('state'))
+        if task.get('state') != task['target_state']:
+            return '%s: the agent determined the outcome %s, after output staging the task ends %s' % (name, task['target_state'], task.get('state'))
         return None
     finally:
         w.close()
@@ -245,7 +245,9 @@ def run_all(rp, tier='quick'):
 
 
 KEYS = ['staging_directives.py:expand_staging_directives', 'staging_directives.py:complete_url',
-        'agent/staging_input/default.py:Default._handle_task_staging#dispatch', 'tmgr/staging_output/default.py:Default.work#triage']
+        'agent/staging_input/default.py:Default._handle_task_staging#dispatch', 'tmgr/staging_output/default.py:Default.work#triage',
+        'tmgr/staging_output/default.py:Default._handle_task#final', 'tmgr/staging_output/default.py:Default.work#pass-on',
+        'tmgr/staging_output/default.py:Default.work#staged']
 
 
 @builder(*KEYS)
